@@ -53,8 +53,8 @@ func runC29OwnListing(c *Ctx, P string) {
 	for _, v := range vals {
 		for _, o := range originsThroughAppend(fl, v) {
 			switch o.Kind {
-			case "zero", "const", "make", "builtin":
-				continue
+			case "zero", "const", "make", "builtin", "alloc":
+				continue // fresh local storage (e.g. the array a variadic append packs its arguments into)
 			case "field":
 				if strings.HasPrefix(o.Desc, "field:CachedDirEntry.") { // the directory cache's own storage (reached through DirCache.Get)
 					continue
